@@ -87,6 +87,21 @@ def fam_c02(tier, rng):
                         jobs=[{"id": "j", "actor": "job", "script": ["raise"] * pre + [out, follow], "retries": mx}],
                         actors={"job": {"variant": "dep", "policy": ["const", 50]}},
                         worker={"tasks_limit": 1, "messages_limit": 0, "grace_s": 0.5}, horizon_ms=6000))
+    # an eager response made by a DEPENDENCY of the actor (directly or nested) that holds the message handle: the delivery ends
+    # there with that one disposition, the body does not run
+    for variant in ("guard", "guardn"):
+        for out in ("g_ack", "g_nack", "g_reject", "g_retry", "g_ack+res", "g_nack+exc+cb"):
+            for mx in (0, 1):
+                for follow in ("ok", "raise"):
+                    if tier == "quick" and rng.random() > 0.5:
+                        continue
+                    scs.append(default_scenario(
+                        jobs=[{"id": "j", "actor": "job", "script": [out, follow, "ok"], "retries": mx},
+                              {"id": "p", "actor": "job", "script": ["ok"], "at_ms": 300},
+                              {"id": "s", "actor": "job2", "script": ["ok"], "at_ms": 2000}],
+                        actors={"job": {"variant": variant, "policy": ["const", 100]}, "job2": {"variant": "plain"}},
+                        worker={"tasks_limit": 2, "messages_limit": 0, "grace_s": 0.5}, results=("+res" in out or "+exc" in out),
+                        horizon_ms=5000, deadline_ms=4500))
     # concurrent mixes
     for n in range({"quick": 12, "thorough": 120}[tier]):
         jobs = []
